@@ -1990,6 +1990,8 @@ class MatrixBase:
                     else:
                         y = Vec(-x.y, x.x, 0.0)
                     z = Vec.cross(x, y)
+                    # In the gimbal lock case, y may not be exactly perpendicular.
+                    y = Vec.cross(z, x)
         else:
             if y is not None:
                 if z is not None:
@@ -2003,6 +2005,8 @@ class MatrixBase:
                     else:
                         x = Vec(y.y, -y.x, 0.0)
                     z = Vec.cross(x, y)
+                    # In the gimbal lock case, x may not be exactly perpendicular.
+                    x = Vec.cross(y, z)
             else:
                 if z is not None:
                     # Just Z.
@@ -2013,6 +2017,8 @@ class MatrixBase:
                     else:
                         y = Vec(-z.y, z.x, 0.0)
                     x = Vec.cross(y, z)
+                    # In the gimbal lock case, y may not be exactly perpendicular.
+                    y = Vec.cross(z, x)
                 else:
                     # None provided, identity.
                     return cls()
